@@ -247,10 +247,10 @@ def ofObs : Obs → Sexp
   | .error .isDir => .list [.atom "error", .atom "is-dir"]
 
 open ForML.Store in
-/-- per operation: is it harmless for the bytecode cache (`okOp`) and for the finder cache (`okKind`) on the state it meets -/
-def okFlags (bc : Bool) : Store → Memo → List Op → List (Bool × Bool)
+/-- per operation: does it leave its target servable by the finder cache (`okKind`) on the state it meets -/
+def okFlags (bc : Bool) : Store → Memo → List Op → List Bool
   | _, _, [] => []
-  | s, k, op :: h => (okOp s op, okKind bc s k op) :: okFlags bc (pstep bc s k op).1 (pstep bc s k op).2.1 h
+  | s, k, op :: h => okKind bc s k op :: okFlags bc (pstep bc s k op).1 (pstep bc s k op).2.1 h
 
 open ForML.Store in
 def stepStore : Sexp → Option Sexp
@@ -258,8 +258,8 @@ def stepStore : Sexp → Option Sexp
     let bc ← bool? bc
     let ops ← ops.mapM op?
     pure (.list [.list ((prun bc Store.empty Memo.empty ops).2.2.map ofObs),
-                 .list ((okFlags bc Store.empty Memo.empty ops).map (fun f => .list [Sexp.ofBool f.1, Sexp.ofBool f.2])),
-                 .list ((lrun (abs Store.empty) ops).2.map ofObs), Sexp.ofBool (ticking 0 ops)])
+                 .list ((okFlags bc Store.empty Memo.empty ops).map Sexp.ofBool),
+                 .list ((lrun (abs Store.empty) ops).2.map ofObs)])
   | _ => none
 
 /-! keys from Python values, PEP 440 text -/
